@@ -112,6 +112,8 @@ pub struct LockOutcome {
     pub model: Model,
     pub sess: Sess,
     pub await_breaks_fired: u64,
+    /// host calls that start or continue evaluation (RUN, CONT, tick)
+    pub eval_calls: u64,
 }
 
 /// Enter the program into a fresh session in the case's order.
@@ -172,6 +174,7 @@ pub fn run_lockstep(c: &ProgCase, cmp: Compare, ctx: &mut Ctx) -> Result<LockOut
         model: Model::new(&[], 0),
         sess: Sess::new(),
         await_breaks_fired: 0,
+        eval_calls: 0,
     };
     let mut stop_cmds = c.stop_cmds.iter();
     let mut breaks: Vec<u32> = c.breaks.clone();
@@ -232,6 +235,9 @@ pub fn run_lockstep(c: &ProgCase, cmp: Compare, ctx: &mut Ctx) -> Result<LockOut
                 return Err(v("harness", "illegal op".into(), format!("{:?} not legal in {:?}", op, s.state())));
             };
             ctx.calls(1);
+            if matches!(&op, Op::Tick) || matches!(&op, Op::Line(t) if t == "RUN" || t == "CONT") {
+                out.eval_calls += 1;
+            }
             real_recs.extend(call.recs.iter().cloned());
             match &call.res {
                 Res::Ok => {}
@@ -361,6 +367,7 @@ pub fn run_lockstep(c: &ProgCase, cmp: Compare, ctx: &mut Ctx) -> Result<LockOut
                             return Err(v("panic", format!("panic@{pn}"), format!("Break while awaiting unwound: {pn}")));
                         }
                         let cont = s.apply(&Op::Line("CONT".into())).unwrap();
+                        out.eval_calls += 1;
                         ctx.calls(1);
                         if let Some(pn) = cont.panicked() {
                             return Err(v("panic", format!("panic@{pn}"), format!("CONT unwound: {pn}")));
@@ -390,6 +397,7 @@ pub fn run_lockstep(c: &ProgCase, cmp: Compare, ctx: &mut Ctx) -> Result<LockOut
                     if let Err(e) = m.reply(&reply) {
                         // the model fails while storing the reply: real must fail the same way on its next tick
                         let call = s.apply(&Op::Tick);
+                        out.eval_calls += 1;
                         ticks += 1;
                         ctx.calls(1);
                         if let Some(p) = call.as_ref().and_then(|c| c.panicked().map(|p| p.to_string())) {
@@ -420,6 +428,7 @@ pub fn run_lockstep(c: &ProgCase, cmp: Compare, ctx: &mut Ctx) -> Result<LockOut
                     if reentered && cmp.reenter_probe {
                         // nothing but the request may change
                         let call = s.apply(&Op::Tick).unwrap();
+                        out.eval_calls += 1;
                         ticks += 1;
                         ctx.calls(1);
                         if let Some(p) = call.panicked() {
